@@ -88,6 +88,15 @@ def waitn_body(mod):
                     seen.add(h.name); work.append(h)
     if root in cands or not cands:
         return root
+    # split into helpers: the body is where the wait itself happens (the semaphore sleep); helpers that only register, poll or dequeue are
+    # seen through their calls (slot_calls)
+    def sleeps(g):
+        return any(i.op == 'call' and i.callee in ('nsync_mu_semaphore_p_with_deadline', 'nsync_mu_semaphore_p') for i in g.real_insts())
+    if sleeps(root):
+        return root
+    for g in cands:
+        if sleeps(g):
+            return g
     return cands[0]
 
 def _direct_slot_calls(mod, fn, slot):
